@@ -227,6 +227,10 @@ CATALOGUE.update({
     "warm_start.arm_missing": _arm_entry("warm_start", lambda s, r: (dict(list(_feats(s, r).items())[:-1]), 0.5)),
     "warm_start.extra_arm": _arm_entry("warm_start", lambda s, r: (dict(_feats(s, r), **{str(_unknown_arm(s)) + "x": [1, 1]})
                                                                  , 0.5)),
+    "warm_start.changed_features_bad_last_vector": _arm_entry(
+        "warm_start", lambda s, r: ({a: ([r.randint(-3, 3) + r.choice([0, 0.25]), r.randint(1, 3)] if i < len(s.mab.arms) - 1
+                                         else [1, 2, 3]) for i, a in enumerate(s.mab.arms)}, 1.0),
+        cond=lambda s: s.cfg.get("np") is None and s.cfg["lp"][0] != "Random" and s.fitted and len(s.mab.arms) >= 3),
     "warm_start.unequal_vector_lengths": _arm_entry(
         "warm_start", lambda s, r: ({a: [1] * (2 + (i % 2)) for i, a in enumerate(s.mab.arms)}, 0.75),
         cond=lambda s: s.cfg.get("np") is None and s.cfg["lp"][0] != "Random" and s.fitted),
@@ -489,6 +493,29 @@ def execute(case, ctx):
     if stream_states(P.mab) != stream_states(R.mab):
         ctx.violate("random-stream-advanced-by-rejected-call", n0, {"entry": entry}, entry=entry)
         return
+    if not entry.startswith("__init__.") and meth == "warm_start" and args and isinstance(args[0], dict) and args[0]:
+        # the corrected call: the same arm features as in the rejected call wherever they were usable (a repaired vector
+        # where they were not), delivered to both bandits
+        lens = [len(v) for v in args[0].values() if isinstance(v, list)]
+        if lens:
+            L = max(set(lens), key=lens.count)
+            fixed = {a: (list(args[0][a]) if isinstance(args[0].get(a), list) and len(args[0][a]) == L else [1] * L)
+                     for a in P.mab.arms}
+            outs = []
+            for S in (P, R):
+                try:
+                    S.mab.warm_start({a: list(v) for a, v in fixed.items()}, 1.0)
+                    outs.append("ok")
+                except Exception as e:   # noqa
+                    outs.append(type(e).__name__)
+            ctx.fired("probe.corrected_warm_start_after_rejected_one")
+            ctx.fired("oracle.comparisons")
+            d = None if outs[0] == outs[1] else "status %s vs %s" % tuple(outs)
+            d = d or diff(pview(P.mab), pview(R.mab))
+            if d:
+                ctx.violate("continuation-model-differs", n0, {"entry": entry, "diff": d, "after": "corrected warm_start"},
+                            entry=entry)
+                return
     # continuation without any re-synchronisation
     for j, op in enumerate(case["cont"]):
         step = n0 + 1 + j
